@@ -60,6 +60,10 @@ def _atom_schema(kind, comps):
         return {"type": "string", "enum": ["a", "b"]}
     if kind == "enum_int":
         return {"type": "integer", "enum": [1, -2]}
+    if kind == "enum_str0":          # a member that is falsy in Python
+        return {"type": "string", "enum": ["", "a"]}
+    if kind == "enum_int0":
+        return {"type": "integer", "enum": [0, 5]}
     if kind == "const":
         return {"const": "k"}
     if kind == "const_int":
@@ -144,6 +148,8 @@ def samples(kind, depth=0):
             "uuid": [UUID1],
             "enum_str": ["a", "b"],
             "enum_int": [1, -2],
+            "enum_str0": ["", "a"],
+            "enum_int0": [0, 5],
             "const": ["k"],
             "const_int": [3],
             "null": [None],
